@@ -38,7 +38,7 @@ Lemma all_closed :
 Proof.
   apply tree_mutind.
   - intros g [H1 H2]. apply (closed_cons _ (all_group g ++ all_gdefs g)); [apply closed_app; auto|apply all_node_group].
-  - intros i fl st H1 H2. apply (closed_cons _ (all_paint fl ++ all_paint st)); [apply closed_app; auto|apply all_node_path].
+  - intros i vz fl st H1 H2. apply (closed_cons _ (all_paint fl ++ all_paint st)); [apply closed_app; auto|apply all_node_path].
   - intros i sub Hs. apply (closed_cons _ (match sub with Some r => all_group r | None => [] end)); [|apply all_node_image].
     destruct sub as [r|]; [apply Hs|apply closed_nil].
   - intros i flat ch [H1 _]. apply (closed_cons _ (all_group flat)); auto.
@@ -152,8 +152,8 @@ Section Universe.
     destruct f as [fp fi ps]. rewrite all_filter_eq. simpl in Hp. apply in_flat_map. exists pr. split; auto.
     destruct pr as [kd sb rs ins img]. simpl in Hi. subst img. rewrite all_prim_eq. apply kid_in_all_group. exact Hk.
   Qed.
-  Lemma U_pattern_kid i fl st q j r k :
-    In (NPath i fl st) U -> (fl = PPat q j r \/ st = PPat q j r) -> In k (g_kids r) -> In k U.
+  Lemma U_pattern_kid i vz fl st q j r k :
+    In (NPath i vz fl st) U -> (fl = PPat q j r \/ st = PPat q j r) -> In k (g_kids r) -> In k U.
   Proof.
     intros Hn Hp Hk. apply (U_closed _ Hn). rewrite all_node_path. right. apply in_or_app.
     destruct Hp as [->| ->]; [left|right]; rewrite all_paint_pat; apply kid_in_all_group; exact Hk.
